@@ -67,8 +67,10 @@ TRACE_JAVA = ["java", "-Xss1g", "-Xmx4g", "-Dtlc2.tool.queue.IStateQueue=StateDe
 def validate_trace(trace_path, tag):
     """TLC on spec/ResolverTrace.tla with TRACE=<file>. Returns (accepted, detail)."""
     meta = os.path.join(vlib.workdir(PID, "tlc_trace_" + tag), "meta")
+    jtmp = os.path.join(vlib.workdir(PID, "tlc_trace_" + tag), "jtmp")
+    os.makedirs(jtmp, exist_ok=True)
     env = dict(os.environ, TRACE=trace_path)
-    p = subprocess.run(TRACE_JAVA + ["-metadir", meta, "-config", os.path.join(vlib.SPEC, "ResolverTrace.cfg"), os.path.join(vlib.SPEC, "ResolverTrace.tla")],
+    p = subprocess.run(TRACE_JAVA[:1] + ["-Djava.io.tmpdir=" + jtmp] + TRACE_JAVA[1:] + ["-metadir", meta, "-config", os.path.join(vlib.SPEC, "ResolverTrace.cfg"), os.path.join(vlib.SPEC, "ResolverTrace.tla")],
                        cwd=vlib.SPEC, env=env, stdout=subprocess.PIPE, stderr=subprocess.STDOUT, text=True, timeout=1800)
     out = p.stdout
     if "Model checking completed. No error has been found." in out:
